@@ -119,6 +119,36 @@ func c18reads() []c18route {
 			}
 			return "(+ 0 (" + pkg + ".Id ." + rest[len(rest)-1] + "))"
 		}},
+		{"dot-argument-quoted", func(root string, rest []string, kind string) string {
+			if kind != "value" || len(rest) == 0 {
+				return ""
+			}
+			pkg := root
+			if len(rest) > 1 {
+				pkg = c18dotted(root, rest[:len(rest)-1])
+			}
+			return "(+ 0 (" + pkg + ".Id (quote ." + rest[len(rest)-1] + ")))"
+		}},
+		{"dot-argument-computed", func(root string, rest []string, kind string) string {
+			if kind != "value" || len(rest) == 0 {
+				return ""
+			}
+			pkg := root
+			if len(rest) > 1 {
+				pkg = c18dotted(root, rest[:len(rest)-1])
+			}
+			return "(+ 0 (" + pkg + ".Id (cond true (begin ." + rest[len(rest)-1] + ") 0)))"
+		}},
+		{"dot-argument-map", func(root string, rest []string, kind string) string {
+			if kind != "value" || len(rest) == 0 {
+				return ""
+			}
+			pkg := root
+			if len(rest) > 1 {
+				pkg = c18dotted(root, rest[:len(rest)-1])
+			}
+			return "(begin (def idf " + pkg + ".Id) (+ 0 (first (map idf [(quote ." + rest[len(rest)-1] + ")])) (apply idf [(quote ." + rest[len(rest)-1] + ")])))"
+		}},
 		{"argument", func(root string, rest []string, kind string) string {
 			if kind == "func" {
 				return "(first (list (" + c18dotted(root, rest) + ")))"
@@ -181,7 +211,7 @@ func c18case(c *engine.Ctx, src string, m c18member, aliasDepth int, route c18ro
 			viol("panic", r.Panic)
 			return
 		}
-		if allowed && route.name == "dot-argument" {
+		if allowed && strings.HasPrefix(route.name, "dot-argument") {
 			// a one-element dot path is relative to the scope that resolves it: from outside it does not name the member
 			// at all, public or not; only the privacy direction is judged on this route
 		} else if allowed {
@@ -308,7 +338,7 @@ func init() {
 		ID:    "C18",
 		Level: "exploration",
 		Rule: "a package tree of depth 3 (thorough 4) in which every package holds values, functions and hashes (with a nested hash) under an upper-case, a lower-case and an underscore name, and nested packages stored under all three kinds of names; " +
-			"for every member: every dot path from outside x {direct, alias of the top package, alias of each nested package on the way, the package held in a plain hash of the script} x 5 read routes (operand of a builtin / call through the path, right-hand side of def, infix right-hand side, argument, one-element dot path handed to a public function of the package) and 2 write routes (set, infix assignment); " +
+			"for every member: every dot path from outside x {direct, alias of the top package, alias of each nested package on the way, the package held in a plain hash of the script} x 8 read routes (operand of a builtin / call through the path, right-hand side of def, infix right-hand side, argument, one-element dot path handed to a public function of the package literally / quoted / computed / through map and apply) and 2 write routes (set, infix assignment); " +
 			"oracle R7: reachable iff the last hop is capitalised (for hash fields: iff the hash is stored under a capitalised name), nested packages traversable under any name; allowed -> the member's unique number / the write takes effect, denied -> an error and the member unchanged (read back through an inside getter); public functions keep access to private members",
 		Assumptions: []string{"lower-case fields of a hash are not package members and are not judged"},
 		Run:         func(c *engine.Ctx) { c18all(c, c.Thorough(), "") },
